@@ -40,7 +40,7 @@ def rand_affine(rng, dim):
         for i in range(dim):
             for j in range(dim):
                 A[i, j] = (1.0 if i == j else 0.0) + rng.randint(-3, 3) / 8
-        if abs(np.linalg.det(A)) > 0.4:
+        if not (abs(np.linalg.det(A)) <= 0.4):
             return A, np.array([rng.randint(-4, 4) / 4 if i < dim else 0.0 for i in range(3)])
 
 
@@ -134,10 +134,17 @@ def main():
         variants = ["affine+renumbered", "polygon"] if dim == 2 else ["affine+renumbered"]
         if et in ("HEXA8", "PRISM6", "QUAD4", "TRI3"):
             variants = variants + ["interior nodes moved"]     # 3D: straight edges, non-planar faces: genuinely trilinear geometry
+        if et in ("TRI3", "QUAD8", "TETRA4", "HEXA8") or thorough:
+            variants = variants + ["tiny"]        # the same mesh in other units (micrometres written in metres): Jacobian determinants of 1e-13
+        if et == "QUAD4":
+            variants = variants + ["large"]       # more than 46341 dofs: row * Ndof + column no longer fits in 32 bits
         if thorough:
             variants = variants + ["plain"]
         for variant in variants:
-            if dim == 2 and variant == "polygon":
+            gscale = 1.0
+            if variant == "large":
+                mesh = M.mesh_2d(et, 2.0, 1.0, 0.0088)
+            elif dim == 2 and variant == "polygon":
                 mesh = M.mesh_2d(et, polygon=POLYGONS[k % 2], h=1.2)
             elif dim == 2:
                 mesh = M.mesh_2d(et, 2.0, 1.0, 0.7 if et in M.TRI else 0.5)
@@ -166,13 +173,17 @@ def main():
                 inner = np.setdiff1d(np.arange(mesh.Nn), boundary_nodes(mesh))
                 Xm[inner] += np.array([[rng.randint(-8, 8) / 100 if c_ < dim else 0.0 for c_ in range(3)] for _ in inner])
                 mesh.coord = Xm
+            if variant == "tiny":
+                gscale = 2.0 ** (-21 if dim == 2 else -15)
+                A = np.eye(3) * gscale
+                M.affine(mesh, A, t)
             if variant.startswith("affine"):
                 A, t = rand_affine(rng, dim)
                 M.affine(mesh, A, t)
                 mesh = renumber(mesh, rng)
             fr, nint = flux_residual(mesh)
             flux_max, flux_meshes = max(flux_max, fr), flux_meshes + 1
-            if fr > 1e-9:
+            if not (fr <= 1e-9):
                 res.disagree("flux-closure", dict(elemType=et, variant=variant, residual=fr, note="the hypothesis FluxClosed of patch_test_partial does not hold on this mesh"))
             X = mesh.coord
             bnodes = boundary_nodes(mesh)
@@ -186,6 +197,7 @@ def main():
                     simu = Simulations.Elastic(mesh, law)
                 G = np.zeros((3, 3))
                 G[:dim, :dim] = [[rng.randint(-8, 8) / 64 for _ in range(dim)] for _ in range(dim)]
+                G /= gscale                      # displacement differences of order one whatever the units
                 a0 = np.array([rng.randint(-4, 4) / 8 if i < dim else 0.0 for i in range(3)])
                 field = lambda P: a0 + P @ G.T  # noqa: E731
                 order = list(bnodes)
@@ -214,7 +226,7 @@ def main():
                 want = field(X)[:, :dim]
                 scale = 1 + np.abs(want).max()
                 err = np.abs(u - want).max() / scale
-                if err > 1e-9:
+                if not (err <= 1e-9):
                     res.fail(f"patch displacement elem={et}", f"linear field not reproduced: max error {err:.2e} (interior nodes: {len(interior)})", ident)
                     continue
                 # strains, stresses, energy
@@ -235,7 +247,7 @@ def main():
                 for nm, val in names.items():
                     for nv in (False, True):
                         got = np.asarray(simu.Result(nm, nodeValues=nv), dtype=float)
-                        if np.abs(got - val).max() > 1e-8 * sc:
+                        if not (np.abs(got - val).max() <= 1e-8 * sc):
                             bad.append((nm, nv, float(np.abs(got - val).max())))
                 if bad:
                     res.fail(f"patch results elem={et} name={bad[0][0]}", f"reported constant values wrong: {bad[:4]} (name, nodeValues, max error)", ident)
@@ -243,7 +255,7 @@ def main():
                 thick = law.thickness if dim == 2 else 1.0
                 wantW = 0.5 * epsK @ sigK * measure * thick
                 gotW = float(simu.Result("Wdef"))
-                if abs(gotW - wantW) > 1e-8 * (1 + abs(wantW)):
+                if not (abs(gotW - wantW) <= 1e-8 * (1 + abs(wantW))):
                     res.fail(f"patch energy elem={et}", f"Wdef = {gotW} but ½ ε:C:ε |Ω| t = {wantW}", ident)
             # correspondence lines
             g = mesh.Get_list_groupElem(dim)[0]
@@ -287,13 +299,13 @@ def main():
         res.case((name, "mixed"), nontrivial=len(interior) > 0)
         res.count("mixed-types")
         err = np.abs(u - want).max() / (1 + np.abs(want).max())
-        if err > 1e-9:
+        if not (err <= 1e-9):
             res.fail(f"patch displacement mesh={name}", f"linear field not reproduced on a mesh mixing element types: max error {err:.2e} (interior nodes: {len(interior)})", ident)
             continue
         Gs = (G + G.T) / 2
         for nm, val in (("Exx", Gs[0, 0]), ("Eyy", Gs[1, 1]), ("Exy", Gs[0, 1])):
             got = np.asarray(simu.Result(nm, nodeValues=False), dtype=float)
-            if np.abs(got - val).max() > 1e-8 * (1 + abs(val)):
+            if not (np.abs(got - val).max() <= 1e-8 * (1 + abs(val))):
                 res.fail(f"patch results mesh={name} name={nm}", f"{nm} is not the constant {val}: max error {np.abs(got - val).max():.2e}", ident)
                 break
 
@@ -324,7 +336,7 @@ def main():
         res.count("thermal")
         want = T0 + X @ gT
         used = np.unique(np.concatenate([g.connect.ravel() for g in mesh.Get_list_groupElem(dim)]))
-        if np.abs(T[used] - want[used]).max() > 1e-9 * (1 + np.abs(want).max()):
+        if not (np.abs(T[used] - want[used]).max() <= 1e-9 * (1 + np.abs(want).max())):
             res.fail(f"thermal patch elem={et}", f"linear temperature not reproduced: max error {np.abs(T[used] - want[used]).max():.2e}", ident)
 
     # ---------------- beams ----------------
@@ -359,7 +371,7 @@ def main():
                 res.case(("beam", et, timo, mode))
                 res.count("beam")
                 err = np.abs(u - want).max() / (1 + np.abs(want).max())
-                if err > 1e-9:
+                if not (err <= 1e-9):
                     res.fail(f"beam patch {mode} timo={timo} elem={et}", f"constant {'axial strain' if mode == 'axial' else 'curvature'} field not reproduced at the nodes: max error {err:.2e}", ident)
                     continue
                 # the same member stretched in place (mesh.coord = ...) on the simulation that has already solved: the stretched
@@ -380,7 +392,7 @@ def main():
                     u2 = np.asarray(s.Solve()).reshape(-1, 3)
                     res.case(("beam", et, timo, mode, "stretched in place"))
                     err2 = np.abs(u2 - want2).max() / (1 + np.abs(want2).max())
-                    if err2 > 1e-9:
+                    if not (err2 <= 1e-9):
                         res.fail(f"beam patch {mode} timo={timo} elem={et} after the member was stretched in place", f"after mesh.coord was scaled by {fac} on the simulation that had already solved, the constant "
                                  f"{'axial strain' if mode == 'axial' else 'curvature'} field is not reproduced: max error {err2:.2e}", dict(ident, stretch=fac))
                 except Exception as ex:  # noqa: BLE001
@@ -428,7 +440,7 @@ def main():
                 res.case(("beam3d", et, timo, mode))
                 res.count("beam3d")
                 err3 = np.abs(u3 - want3).max() / (1 + np.abs(want3).max())
-                if err3 > 1e-9:
+                if not (err3 <= 1e-9):
                     res.fail(f"3D beam patch {mode} timo={timo} elem={et}", f"constant {mode} field prescribed at the two ends is not reproduced at the interior nodes: max error {err3:.2e}", ident)
 
     # ---------------- heat conduction on meshes mixing element types, thickness != 1 ----------------
@@ -449,7 +461,7 @@ def main():
             Tm = np.asarray(sm.Solve()).ravel()
             usedm = np.unique(np.concatenate([g.connect.ravel() for g in meshm.Get_list_groupElem(2)]))
             errm = np.abs(Tm[usedm] - (0.5 + Xm @ gm)[usedm]).max()
-            if errm > 1e-9 * (1 + np.abs(Xm @ gm).max()):
+            if not (errm <= 1e-9 * (1 + np.abs(Xm @ gm).max())):
                 res.fail(f"thermal patch mixed mesh {mname}", f"linear temperature not reproduced on a mesh mixing element types with thickness {thm}: max error {errm:.2e}", identm)
         except Exception as ex:  # noqa: BLE001
             res.fail(f"thermal patch raises mixed mesh {mname}", f"{type(ex).__name__}: {str(ex)[:150]}", identm)
@@ -465,7 +477,7 @@ def main():
             except Exception:  # noqa: BLE001
                 res.disagree("strain", dict(ident, model=ans[:80]))
                 continue
-            if model.shape != real.shape or np.abs(model - real).max() > 1e-10 * (1 + np.abs(real).max()):
+            if model.shape != real.shape or not (np.abs(model - real).max() <= 1e-10 * (1 + np.abs(real).max())):
                 res.disagree("strain", dict(ident, model=model.tolist(), real=real.tolist()))
     res.notes.append(f"flux closure (hypothesis of patch_test_partial) evaluated on {flux_meshes} meshes: max relative residual {flux_max:.2e}")
     res.search_note = "patch tests pass on every sampled mesh, law and field"
